@@ -170,6 +170,22 @@ def check(run):
                 gk = g2
                 path = os.path.join(tmpdir, 'g%d_%d.g2o' % (n, cyc))
                 g2.to_g2o(path)
+            # History: an export after the graph changed must reflect the CURRENT numbers (no stale text), and a re-import from a path that was
+            # imported before must read the current file
+            if n % 2 == 0:
+                v0 = g._vertices[0]
+                oldval = float(v0.pose[0])
+                v0.pose[0] = oldval + 1.25 if abs(oldval) < 1e15 else 0.5
+                p2 = os.path.join(tmpdir, 'g%d.g2o' % n)              # the path of the first export is re-used
+                try:
+                    g.to_g2o(p2)
+                    g3 = Graph.from_g2o(p2)
+                    tok = [ln for ln in GG.tokenize_file(p2) if ln[0].startswith('VERTEX') and ln[1] == str(v0.id)][0][2]
+                    if GG.bits(float(tok)) != GG.bits(float(v0.pose[0])) or GG.bits(float(g3._vertices[0].pose[0])) != GG.bits(float(v0.pose[0])):
+                        run.violation(dict(key, outcome='stale-export'), 'after changing a vertex the export / re-import still shows %r instead of %r' % (tok, float(v0.pose[0])), dict(abstract=c['g']))
+                except Exception as ex:  # noqa
+                    run.violation(dict(key, outcome='export-raised'), 'second export / import raised %r' % (ex,), dict(abstract=c['g']))
+                stats['re_exports_after_change'] = stats.get('re_exports_after_change', 0) + 1
             if n % 40 == 0:
                 run.sample(dict(abstract_graph=c['g'], exported_lines=[' '.join(ln) for ln in lines][:6], symbol_values=tab.vals[:12], ids=tab.ids))
     finally:
